@@ -173,21 +173,19 @@ func (h *responseCache) insert(entry *cacheEntry) {
 	}
 	h.mux.Lock()
 	defer h.mux.Unlock()
-	// See if we need to make room for the new entry
-	for h.currentSizeBytes+len(entry.responseData) >= h.maxBytes {
+	// See if we need to make room for the new entry (until there is nothing left to remove)
+	for h.head != nil && h.currentSizeBytes+len(entry.responseData) >= h.maxBytes {
 		_ = h.pop()
 	}
-	if h.head == nil {
-		// First entry
+	if h.head == nil || !h.head.expirationTime.Before(entry.expirationTime) {
+		// First entry, or the entry that expires first: it becomes the head of the list
+		entry.next = h.head
 		h.head = entry
 	} else {
 		// Insert in the linked list, ordered by expiration time
 		var current = h.head
 		for current.next != nil && current.next.expirationTime.Before(entry.expirationTime) {
 			current = current.next
-		}
-		if current == h.head {
-			h.head = entry
 		}
 		entry.next = current.next
 		current.next = entry
